@@ -26,6 +26,7 @@ type Roles struct {
 	Multi   Multi       // funded 2-of-2 multisig account
 	MultiIn Multi       // same keys, signatures placed in the wrong order
 	Deep    Multi       // multisig with more keys than TxSigLimit allows
+	AppU    chain.Key   // application that is unstaking (begin-unstake in the setup block)
 	NodeLow chain.Key   // non-custodial node whose operator account holds less than one fee; output = Out2
 	Out2    chain.Key   // output address of NodeLow (funded, balance differs from every other account)
 	Out3    chain.Key   // funded account used as the new output address in output-address edits
@@ -55,11 +56,11 @@ func NewChain(o Options) (*Lab, *Roles) {
 	} else {
 		chain.ResetGlobals(o.Features, 2, 1)
 	}
-	w, g := chain.DefaultWorld(o.ChainID, 2, 2, 2, 8)
+	w, g := chain.DefaultWorld(o.ChainID, 2, 2, 3, 8)
 	g.Features = o.Features
 	r := &Roles{W: w, Val: w.Vals[0], Node: w.Servs[0], NodeNC: w.Servs[1], Out: w.Accts[0], App: w.Apps[0], App2: w.Apps[1],
 		Rich: w.Accts[1:4], TwoDen: w.Accts[4], Owner: w.Owner, Fresh: w.Fresh,
-		NodeLow: w.Vals[1], Out2: w.Accts[5], Out3: w.Accts[6], NewApp: w.Accts[7]}
+		AppU: w.Apps[2], NodeLow: w.Vals[1], Out2: w.Accts[5], Out3: w.Accts[6], NewApp: w.Accts[7]}
 	for i := 0; i < 4; i++ {
 		r.Poor = append(r.Poor, chain.KeyN(3000+uint64(i)))
 	}
@@ -130,6 +131,7 @@ func NewChain(o Options) (*Lab, *Roles) {
 	setup = append(setup, chain.SignTx(o.ChainID, r.NodeNC, chain.MsgNodeStake(r.NodeNC, NCStake, []string{chain.ChainHash}, "https://nc.example:443", r.Out.Addr, nil), chain.DefaultFee*(o.FeeMulti+1), 950, ""))
 	// NodeLow: non-custodial (output Out2); afterwards its operator account is drained to half a fee
 	setup = append(setup, chain.SignTx(o.ChainID, r.NodeLow, chain.MsgNodeStake(r.NodeLow, NCStake, []string{chain.ChainHash}, "https://low.example:443", r.Out2.Addr, nil), chain.DefaultFee*(o.FeeMulti+1), 951, ""))
+	setup = append(setup, chain.SignTx(o.ChainID, r.AppU, chain.MsgAppUnstake(r.AppU.Addr), chain.DefaultFee*(o.FeeMulti+1), 953, ""))
 	l.EmptyBlock()
 	run := func(txs [][]byte) {
 		l.Begin(txs)
